@@ -29,6 +29,8 @@ func c16(p *core.Program, r *core.Report) {
 	c16GroupByPaging(p, r)
 	r.Rule("R8", "a counting filter serves one scan: a rowFilter made by a constructor whose closure updates a captured variable (filterWithLimit) and handed to fragment.rows inside a loop is made inside that same loop (possibly through slices it was appended to)")
 	c16StatefulFilterPerScan(p, r)
+	r.Rule("R9", "MinRow/MaxRow scans visit both ends: a counting loop that starts at a row extent (fragment.minRowID(), fragment.maxRowIDFromStorage() -- rows that exist) is not bounded by the other extent with a strict comparison, and is not left by `if i == extent { break }` before row i was looked at")
+	c16RowExtentScans(p, r)
 	r.NotDecided = "Rows paging and merge limits, the intersections computed by the GroupBy iterator, time-range handling: value/iteration logic"
 	pk := p.Pkg("")
 	if pk == nil {
